@@ -376,6 +376,9 @@ def conclude(prop, args, tot, shard_failures, wall, n_planned):
           'violations': len(new)}
     evdir = os.environ.get('VERIF_EVIDENCE_DIR') or os.path.join(VERIF, 'evidence')
     os.makedirs(evdir, exist_ok=True)
+    if os.environ.get('VERIF_DUMP_ENTERED'):
+        with open(os.path.join(os.environ['VERIF_DUMP_ENTERED'], pid + '.entered.json'), 'w') as f:
+            json.dump(tot.get('entered', []), f)
     with open(os.path.join(evdir, pid + '.json'), 'w') as f:
         json.dump(ev, f, indent=1, default=repr)
     print('%s tier=%s seed=%d cases=%d evaluations=%d distinct_nontrivial=%d verdicts=%s wall=%.1fs'
